@@ -236,4 +236,36 @@ PROPS = {
                        'over capacity, radius rule (ideal); correspondence: prefix relation against the real reopen; monitors reopen_succeeds, items_genuine, counter_ge_held, '
                        'open_prunes_overcap, open_radius_is_farthest (known finding inherited from C06), image_is_a_batch_prefix',
     },
+    'C03': {
+        'lean_targets': ['Shisui.Props.C03'],
+        'min_obligations': 20,
+        'runs': [{'name': 'headerproof', 'harness': ['C03'], 'driver': ['C03']}],
+        'rule': 'the real HeaderValidator (ValidateHeaderAndProof and the four era validators) over caller-supplied accumulators: '
+                '(a) the repository\'s mainnet vectors of all four eras against the embedded accumulators with every single-node corruption '
+                '(15 / 14+1+11 / 13+1+11 / 13+1+12 nodes), header-hash flips, slot shifts (+-1, +-8192, 2^20, 2^40, 2^63, wrap-around, first slot '
+                'beyond each table), malformed lengths and the other eras\' entry points; (b) synthetic pre-merge chains of 1..3 epochs (lengths 1, 2, 3, '
+                'random <=512, 511, 512, 8191, 8192, 8193, 2*8192+5; thorough: 6 full epochs and every record index of one epoch) whose roots come from the '
+                'real history.Accumulator and whose proofs come from the real history.BuildProof: first/last/middle/random records, first and last record of '
+                'every epoch, zero-padded positions beyond the chain, epochs beyond the table, another header at the same number, the proof of another '
+                'position, the merge boundary inside the embedded accumulator; (c) synthetic post-merge eras: real zrnt BeaconBlocks (Bellatrix/Capella/Deneb '
+                'layouts) around synthetic headers at the first and last block number of each era, real HistoricalBatch / block-roots roots over 8192 arbitrary '
+                'roots (random, repeated as for skipped slots, zero), positions 0, 1, 4096, 8191 and random, batches in tables of 1..4 entries and installed at the '
+                'first/last/random index of the embedded historical_roots and of the 643-entry summaries fixture, every single-node corruption, slot and era '
+                'tampering (same-size and re-laid-out containers across every boundary), slots beyond the tables and before the Capella start, summaries '
+                'supplied by an oracle (empty/short cache, long/short/failing/absent oracle). Non-trivial = the case reached a Merkle comparison or an unchecked '
+                'table access (not a mere length error); distinct = distinct case lines among those',
+        'trusted': ['SHA-256 is an executable Lean function in the driver (lean/Shisui/Sha256.lean) compared against crypto/sha256, fastssz and zrnt through every root and verdict of the run',
+                    'go-ethereum Header.Hash (keccak of the RLP) is taken from the implementation: the model works on (block number, header hash)',
+                    'fastssz VerifyProof / zrnt VerifyMerkleBranch are re-modelled as Mk.fold; fastssz/ztyp merkleisation as Mk.build (compared on every accumulator of the run)',
+                    HASHES],
+        'assumptions': ['block numbers and slots below 2^64 (Go reads header.Number.Uint64())',
+                        'table entries are 32-byte chunks',
+                        'theorems are about the decoded proof (15 siblings / fixed-size containers); the byte-level slicing is part of the executable model and is covered by the correspondence run, not by a round-trip theorem'],
+        'explanation': 'theorems for every hash function, all tables, headers and positions: honest proofs verify in all four eras (prover = Mk.prove), accepted => committed leaf '
+                       'under every opening of the trusted root or an explicit collision / leaf pre-image (no injectivity axiom), at most one (hash, proof) accepted per position, '
+                       'accepted size = era size, verdict depends only on the era\'s own accumulator, out-of-range => error and no panic for the ideal model, panic for the code as it is. '
+                       'Correspondence: step equality of verdict class and provider cache size with Hp.validate over the Lean SHA-256, of every accumulator root and every honest proof with '
+                       'the model prover; monitors honest_proof_verifies, only_committed_leaf_verifies, out_of_range_is_error_<table>, no_panic, prover_builds_header_with_proof evaluated on '
+                       'the real code against a specification verdict computed from the committed structures themselves (not from the verifier model)',
+    },
 }
